@@ -215,9 +215,17 @@ def service_history(job):
         outs = [[o.output_n, int(o.value), addr2key[o.address]] for o in t.outputs if o.address in addr2key]
         return [txnum(table, t.txid), int(t.confirmations or 0), ins, outs]
 
+    # some histories follow a scenario: the wallet spends the change of its own transaction before it has been told that the
+    # transaction was mined, then updates (the provider knows nothing of the unconfirmed spend)
+    plan = []
+    if rng.random() < 0.35:
+        plan = ['key', 'pay', 'update', 'send', 'mine', 'send0', 'update', 'send0', 'update']
+    forced = [None]
     try:
         for step in range(nops):
             r = rng.random()
+            forced[0] = plan[step] if step < len(plan) else None
+            r = {'key': 0.0, 'pay': 0.2, 'mine': 0.2, 'update': 0.5, 'send': 0.8, 'send0': 0.8}.get(forced[0], r)
             keys = own_keys()
             if step == 0 or r < 0.08:
                 k = w.get_key() if single else rng.choice([w.new_key, w.get_key])()
@@ -225,14 +233,18 @@ def service_history(job):
             elif r < 0.36 and keys:
                 # the chain moves: payments to the wallet, spends made elsewhere, the wallet's broadcast transactions get mined
                 what = []
-                if rng.random() < 0.8:
+                if forced[0] == 'mine':
+                    while mempool:
+                        confirm(mempool.pop(0))
+                        what.append('own transaction mined')
+                elif rng.random() < 0.8 or forced[0] == 'pay':
                     pay = [(rng.choice(keys).address, rng.choice([20000, 150000, 1000000, 3000000])) for _ in range(rng.choice([1, 1, 2]))]
                     if len({a for a, _ in pay}) == len(pay):
                         confirm(fund(pay))
                         what.append('payment %s' % [(a[:8], v) for a, v in pay])
                 unspent = [(t.txid, o.output_n) for t in chain for o in t.outputs if o.address in {k.address for k in keys}
                            and (t.txid, o.output_n) not in {(i.prev_txid.hex(), i.output_n_int) for x in chain + mempool for i in x.inputs}]
-                if unspent and rng.random() < 0.3:
+                if unspent and rng.random() < 0.3 and not forced[0]:
                     coins = rng.sample(unspent, min(len(unspent), rng.choice([1, 1, 2])))
                     confirm(spend_elsewhere(coins))
                     what.append('spent elsewhere: %s' % ['tx%d:%d' % (txnum(table, a), b) for a, b in coins])
@@ -242,7 +254,7 @@ def service_history(job):
                 desc.append('(chain: %s; height %d)' % ('; '.join(what) or 'new block', height[0]))
                 events.append(dict(events[-1], op='observe')) if events else None
             elif r < 0.62:
-                prov = 'ok' if rng.random() < 0.8 else 'fail'
+                prov = 'ok' if rng.random() < 0.8 or forced[0] else 'fail'
                 vfake.SCRIPT['p1'] = 'ok' if prov == 'ok' else 'raise'
                 del told[:]
                 err = None
@@ -268,6 +280,9 @@ def service_history(job):
                 to = ext_address(rng.randrange(4)) if rng.random() < 0.8 else rng.choice(keys).address
                 fee = rng.choice([None, 2000, 5000])
                 minconf = rng.choice([0, 1, 1, 3])
+                if forced[0] in ('send', 'send0'):
+                    amount, minconf = rng.choice([20000, max(1000, total // 2)]), 0 if forced[0] == 'send0' else 1
+                    to = ext_address(rng.randrange(4))
                 q = {'fee': fee if isinstance(fee, int) else -1, 'minconf': minconf, 'inkeys': [], 'sweep': False, 'explicit': [], 'above': -1,
                      'acct': 0, 'feemin': 0, 'feemax': 0, 'recips': [[0, int(amount)]]}
                 ev = {'op': 'tx', 'q': q, 'created': False, 'stored': False, 'tnum': 0, 'kind': 'send_to', 'x': {'ins': [], 'outs': [], 'fee': 0, 'vsize': 0}}
